@@ -54,7 +54,7 @@ JOBS = [
         const_classes=['<MGRS'], replay_ghost=[ANGNORM_GHOST % 'lon'], replay_domain=EXACT_LON, description='UTM zone rules'),
     Job('UTMUPS.CheckCoords', 'UTMUPS::CheckCoords', ['C04', 'C13', 'C14'], const_classes=['<MGRS'], description='UTM/UPS coordinate ranges'),
     Job('UTMUPS.Forward', 'UTMUPS::Forward', ['C04', 'C13', 'C14'], select=r'gamma', const_classes=['<MGRS'],
-        replace=[('UTMUPS::StandardZone', dict(may_throw=True)), ('UTMUPS::CheckCoords', dict(may_throw=True)), ('Math::AngDiff', dict(arity=2)),
+        replace=[('UTMUPS::StandardZone', dict(may_throw=True)), ('UTMUPS::CheckCoords', dict(may_throw=True)), ('Math::AngDiff', dict(arity=2, cname='Math_AngDiff2')),
                  ('TransverseMercator::Forward', dict(static=True, arity=7)), ('PolarStereographic::Forward', dict(static=True, arity=7))],
         inline=['UTMUPS::CentralMeridian'], description='geographic -> UTM/UPS'),
     Job('UTMUPS.Reverse', 'UTMUPS::Reverse', ['C04', 'C13', 'C14'], select=r'gamma', const_classes=['<MGRS'],
@@ -74,8 +74,14 @@ JOBS = [
     Job('Math.sum.float', 'Math::sum', ['C16', 'C14'], real='float', timeout=14000, tier='thorough', cname='Math_sum', contract_name='Math_sum',
         cases=[('near', '!(verif_fabsf(in_u) >= verif_fabsf(in_v)*536870912.0f) && !(verif_fabsf(in_v) >= verif_fabsf(in_u)*536870912.0f)'),
                ('u_dominates', 'verif_fabsf(in_u) >= verif_fabsf(in_v)*536870912.0f'), ('v_dominates', 'verif_fabsf(in_v) >= verif_fabsf(in_u)*536870912.0f')],
-        defines=['VERIF_SUM_MAX=1.7014117e38f', 'VERIF_SUM_EXACT(s,t,u,v)=((double)(s)+(double)(t)==(double)(u)+(double)(v)||(verif_fabsf(u)>=verif_fabsf(v)*536870912.0f&&(s)==(u)&&(t)==(v))||(verif_fabsf(v)>=verif_fabsf(u)*536870912.0f&&(s)==(v)&&(t)==(u)))'],
+        defines=['VERIF_SUM_MAX=1.7014117e38f', 'VERIF_SUM_EPS=5.9604645e-08f', 'VERIF_SUM_EXACT(s,t,u,v)=((double)(s)+(double)(t)==(double)(u)+(double)(v)||(verif_fabsf(u)>=verif_fabsf(v)*536870912.0f&&(s)==(u)&&(t)==(v))||(verif_fabsf(v)>=verif_fabsf(u)*536870912.0f&&(s)==(v)&&(t)==(u)))'],
         description='TwoSum, all finite floats (exactness checked in binary64)'),
+    Job('Math.sum', 'Math::sum', ['C16', 'C14'], timeout=300, exclude_clauses=['post.exact_error', 'post.error_bound', 'post.absorbed'],
+        defines=['VERIF_SUM_MAX=8.988465674311579e307', 'VERIF_SUM_EXACT(s,t,u,v)=1', 'VERIF_SUM_EPS=1.1102230246251565e-16'],
+        description='TwoSum (double): rounded sum, NaN, zero sign (error term clauses: thorough tier)'),
+    Job('Math.sum.errorterm', 'Math::sum', ['C16'], timeout=14000, tier='thorough', exclude_clauses=['post.exact_error'], sat='cadical',
+        defines=['VERIF_SUM_MAX=8.988465674311579e307', 'VERIF_SUM_EXACT(s,t,u,v)=1', 'VERIF_SUM_EPS=1.1102230246251565e-16'],
+        description='TwoSum (double): |t| <= ulp(s)/2 (the clauses callers rely on)'),
     Job('Math.AngNormalize', 'Math::AngNormalize', ['C16', 'C13', 'C14'], exclude_clauses=['post.equivalent'], description='angle normalisation (double)'),
     Job('Math.AngNormalize.equiv', 'Math::AngNormalize', ['C16'], tier='thorough', timeout=7200, description='angle normalisation (double): equivalence modulo 360'),
     Job('Math.AngNormalize.float', 'Math::AngNormalize', ['C16'], real='float', cname='Math_AngNormalize', contract_name='Math_AngNormalize',
@@ -83,6 +89,13 @@ JOBS = [
     Job('Math.AngRound', 'Math::AngRound', ['C16', 'C14'], defines=['VERIF_ANGROUND_GAP=6.938893903907228e-18', 'VERIF_ANGROUND_T=double'], description='small-angle rounding (double)'),
     Job('Math.AngRound.float', 'Math::AngRound', ['C16'], real='float', cname='Math_AngRound', contract_name='Math_AngRound',
         defines=['VERIF_ANGROUND_GAP=3.7252903e-09f', 'VERIF_ANGROUND_T=float'], description='small-angle rounding (float)'),
+    Job('Math.sincosd', 'Math::sincosd', ['C16', 'C13', 'C14'], timeout=600, description='sine and cosine in degrees: quadrant logic, exact special values, signed zeros'),
+    Job('Math.sind', 'Math::sind', ['C16', 'C13', 'C14'], timeout=300, description='sine in degrees'),
+    Job('Math.cosd', 'Math::cosd', ['C16', 'C13', 'C14'], timeout=300, description='cosine in degrees'),
+    Job('Math.AngDiff', 'Math::AngDiff', ['C16', 'C13', 'C14'], arity=3, select=r'T& ?e', replace=['Math::sum'], timeout=300,
+        defines=['VERIF_SUM_MAX=8.988465674311579e307', 'VERIF_SUM_EXACT(s,t,u,v)=1', 'VERIF_SUM_EPS=1.1102230246251565e-16'], description='angle difference: range, NaN, error term bound'),
+    Job('Math.AngDiff2', 'Math::AngDiff', ['C16', 'C14'], arity=2, cname='Math_AngDiff2', replace=[('Math::AngDiff', dict(arity=3))],
+        description='angle difference, one-output overload (over the contract of the two-output form)'),
     Job('Math.LatFix', 'Math::LatFix', ['C16', 'C14'], description='latitude fixing'),
     Job('Math.atan2d', 'Math::atan2d', ['C16', 'C01', 'C14'], description='arctangent in degrees: range, quadrant, exact axes'),
 ]
